@@ -26,7 +26,7 @@ ASSUMPTIONS = [
     "crashes and hangs are judged by C13, not here (counted as skipped)",
     "register names are matched case-insensitively; lower-case registers are not generated on purpose",
 ]
-HEALTH = {"accepted": 0.03, "class:invalid_by_construction": 4000}
+HEALTH = {"accepted": 0.012, "class:invalid_by_construction": 1600}
 FUZZ = {"target": "fuzz/fuzz_asm.py", "seconds": {"quick": 0, "thorough": 180}}
 EXHAUSTIVE = {"quick": ["invalid-by-construction operand list x all 139 mnemonics",
                         "every single-character deletion and duplication of 120 base operands x 12 mnemonics"],
